@@ -104,7 +104,7 @@ def long_map(n, gap_cycle=(1, 2)):
 def plan(tier, seed):
     L = 4 if tier == "quick" else 5
     maps = HMAPS[:3] if tier == "quick" else HMAPS
-    shards = [("table",)] + [("longtable", n) for n in LONG] + [("longhist", n, k) for n in (10, 18, 40) for k in KINDS]
+    shards = [("table",)] + [("longtable", n) for n in LONG] + [("hugetable", n) for n in (257, 300, 1025, 1100)] + [("longhist", n, k) for n in (10, 18, 40) for k in KINDS]
     for mi in range(len(maps)):
         for k in KINDS:
             for t0 in TICKS:
@@ -157,14 +157,20 @@ def run_shard(shard, ctx):
                 if got not in ACCEPT:
                     e1.report(ctx, "history", text, PROBE_SRC, ACCEPT, got, "kind %s, ticks in file order %r on a tempo map of %d events: stored timestamp differs from the un-hinted query (or a non-ValueError escaped)" % (kind, list(seq), n), extra_case=dict(kind="hist"))
         return
-    if shard[0] in ("table", "longtable"):
-        maps_ = table_maps() if shard[0] == "table" else [long_map(shard[1]), long_map(shard[1], (3,))]
+    if shard[0] in ("table", "longtable", "hugetable"):
+        maps_ = table_maps() if shard[0] == "table" else ([long_map(shard[1]), long_map(shard[1], (3,))] if shard[0] == "longtable" else [long_map(shard[1])])
         for tempo in maps_:
             ctx.node()
             text = mk(sync=["0 = TS 4"] + ["%d = B %d" % tn for tn in tempo])
             be = impl.parse(text).sync_track.bpm_events
             tks = [t for t, _ in tempo]
-            for tick in list(range(0, tks[-1] + 4)) + [tks[-1] + 10**6, tks[-1] + 2**32]:
+            if shard[0] == "hugetable":  # very long maps: ticks around the beginning, powers of two, the middle and the end
+                n_ = len(tks)
+                sel_ = sorted({0, 1, 2, 7, 8, 9, 15, 16, 17, 31, 32, 33, 63, 64, 65, 127, 128, 129, 255, 256, 257, n_ // 2, n_ - 3, n_ - 2, n_ - 1} & set(range(n_)))
+                tick_list = sorted({tks[i] + d for i in sel_ for d in (-1, 0, 1) if tks[i] + d >= 0}) + [tks[-1] + 10**6]
+            else:
+                tick_list = list(range(0, tks[-1] + 4)) + [tks[-1] + 10**6, tks[-1] + 2**32]
+            for tick in tick_list:
                 gov = max(i for i, t in enumerate(tks) if t <= tick)
                 try:
                     ref = be.timestamp_at_tick(tick)
